@@ -70,6 +70,14 @@ def generate_source_code(docstring, parsed):
             f'The {start_rule!r} rule must not have the "ignore" modifier.'
         )
 
+    if start_rule is None and not _inherits_start_rule(parsed.extends):
+        # Without a rule called "start", the first rule that is not ignored is
+        # the start rule (and not an "ignore" declaration that comes first).
+        for node in rules:
+            if not node.is_ignored:
+                start_rule = node
+                break
+
     if not rules:
         raise Exception('Expected one or more grammar rules.')
 
@@ -307,6 +315,15 @@ def generate_source_code(docstring, parsed):
                 )
 
     return out
+
+
+def _inherits_start_rule(ancestor):
+    while ancestor is not None:
+        for stmt in ancestor.body:
+            if hasattr(stmt, 'name') and stmt.name.lower() == 'start':
+                return True
+        ancestor = ancestor.extends
+    return False
 
 
 class _Flags:
